@@ -31,7 +31,7 @@ import (
 // ------------------------------------------------------------------------------------------------ sub-process
 
 type request struct {
-	Op   string `json:"op"` // Connect | Recv | Finish
+	Op   string `json:"op"` // Connect | Dial | Recv | Finish
 	Cls  string `json:"cls,omitempty"`
 	Seed int64  `json:"seed"`
 }
@@ -62,7 +62,15 @@ func kib(x uint64) int { return int((x + 1023) / 1024) }
 // recv performs one attacker step on connection c and reports what the node did.
 func (n *node) recv(c *conn, cls string, seed int64, limit time.Duration) map[string]interface{} {
 	b := &bctx{n: n, c: c, rng: mrand.New(mrand.NewSource(seed))}
-	p, ok := b.build(cls)
+	// the attacker's own code runs in this process too: a panic while BUILDING the input is a harness failure, never the node's
+	p, ok, perr := func() (p plan, ok bool, perr interface{}) {
+		defer func() { perr = recover() }()
+		p, ok = b.build(cls)
+		return
+	}()
+	if perr != nil {
+		return map[string]interface{}{"error": fmt.Sprintf("building class %s panicked: %v", cls, perr)}
+	}
 	if !ok {
 		return map[string]interface{}{"error": "unknown class " + cls}
 	}
@@ -76,8 +84,19 @@ func (n *node) recv(c *conn, cls string, seed int64, limit time.Duration) map[st
 	read0 := atomic.LoadInt64(&c.srv.nread)
 	sent, wstall, note := 0, false, ""
 	if p.special != nil {
-		if err := p.special(b); err != nil {
+		err := func() (err error) {
+			defer func() {
+				if r := recover(); r != nil {
+					err = fmt.Errorf("HARNESS PANIC: %v", r)
+				}
+			}()
+			return p.special(b)
+		}()
+		if err != nil {
 			note = err.Error()
+			if strings.HasPrefix(note, "HARNESS PANIC") {
+				return map[string]interface{}{"error": "class " + cls + ": " + note}
+			}
 		}
 	} else {
 	write:
@@ -205,16 +224,26 @@ func driveRun(args []string) error {
 			return err
 		}
 		switch rq.Op {
-		case "Connect":
+		case "Connect", "Dial":
 			if c != nil {
 				c.cli.Close() // the attacker may always hang up
 			}
-			c = n.accept()
+			m := map[string]interface{}{"alive": true}
+			if rq.Op == "Connect" {
+				c = n.accept()
+			} else {
+				c = n.dial()
+			}
 			ok, last, _ := quiesce(limit)
+			if rq.Op == "Dial" {
+				// the node has sent its handshake request: the evil listener decrypts it with its own key, as any remote would
+				m["req"] = c.takeRequest()
+			}
 			if last.blocked == nil {
 				last.blocked = []string{}
 			}
-			reply(map[string]interface{}{"alive": true, "closed": c.srv.isClosed(), "hs": c.hs, "quiet": ok, "blocked": last.blocked})
+			m["closed"], m["hs"], m["quiet"], m["blocked"], m["dir"] = c.srv.isClosed(), c.hs, ok, last.blocked, c.dir
+			reply(m)
 		case "Recv":
 			if c == nil {
 				reply(map[string]interface{}{"error": "Recv before Connect"})
@@ -310,13 +339,7 @@ func (a *adapter) Reset(init map[string]tla.Value) (engine.Fields, error) {
 	if err != nil || m["ready"] != true {
 		return nil, fmt.Errorf("node sub-process did not start: %v %v\n%s", err, m, a.errBuf.buf)
 	}
-	// the model starts with the first connection open (conns = 1)
-	if _, err := a.in.Write([]byte("{\"op\":\"Connect\"}\n")); err != nil {
-		return nil, err
-	}
-	if m, err = a.read(); err != nil || m["alive"] != true {
-		return nil, fmt.Errorf("first connection failed: %v %v\n%s", err, m, a.errBuf.buf)
-	}
+	// the model starts idle: the first connection is opened by a Connect or Dial step
 	return engine.Fields{"seed": a.seed}, nil
 }
 
@@ -380,7 +403,7 @@ func (a *adapter) Apply(s engine.Step) (engine.Fields, error) {
 	rq := request{Op: s.Act.Name}
 	if s.Act.Name == "Recv" {
 		rq.Cls = s.Act.Args[0].S()
-	} else if s.Act.Name != "Connect" {
+	} else if s.Act.Name != "Connect" && s.Act.Name != "Dial" {
 		return nil, fmt.Errorf("unknown action %s", s.Act.Name)
 	}
 	h := fnv.New64a()
